@@ -78,6 +78,57 @@ func zzC05_duplicate() {
 	}
 }
 
+// three arrivals of one message ID at symbolic times, housekeeping ticks in between: the lifetime runs from the
+// arrival that was handled as fresh - duplicates served from the reply cache do not prolong it - and once it has
+// elapsed a tick leaves nothing cached
+func zzC05_lifetime() {
+	s := zzNewSession()
+	calls := 0
+	cc := zzNewConn(s, zzConnCfg{midSeed: 1000, handler: func(w *responsewriter.ResponseWriter[*Conn], r *pool.Message) {
+		calls++
+		_ = w.SetResponse(codes.Content, message.AppOctets, bytesReader([]byte{byte(calls)}))
+	}})
+	t1, t2, t3 := symI64("t1"), symI64("t2"), symI64("t3")
+	symAssume(t1 > 1<<40 && t1 <= t2 && t2 <= t3 && t3 < 1<<59)
+	tick := symChoose("tick-before-each-arrival", 2) == 1
+	arrive := func(t int64) {
+		symSetNow(time.Unix(0, t))
+		if tick {
+			cc.CheckExpirations(time.Unix(0, t))
+		}
+		cc.ProcessReceivedMessage(zzRequest(message.Confirmable, 7, codes.GET, message.Token{0xA1}, nil))
+	}
+	arrive(t1)
+	fresh, want := t1, 1
+	arrive(t2)
+	if t2-fresh > zzLifetime {
+		fresh = t2
+		want++
+	}
+	symAssert(calls == want, "the second arrival is handed to the handler exactly when the lifetime of the first has elapsed")
+	arrive(t3)
+	if t3-fresh > zzLifetime {
+		fresh = t3
+		want++
+		symCover("fresh-again")
+	} else {
+		symCover("duplicate")
+	}
+	symAssert(calls == want, "a duplicate served from the reply cache does not prolong the lifetime: the ID is fresh again one lifetime after the arrival that was handled")
+	// housekeeping one lifetime after the last handled arrival: nothing cached any more
+	t4 := symI64("t4")
+	symAssume(t4 >= t3 && t4 < 1<<60 && t4-fresh > zzLifetime)
+	symSetNow(time.Unix(0, t4))
+	cc.CheckExpirations(time.Unix(0, t4))
+	if mc, ok := cc.responseMsgCache.(*messageCache); ok {
+		symAssert(mc.c.Length() == 0, "cached replies disappear one exchange lifetime after the exchange, however often duplicates were served")
+	}
+	symAssert(len(cc.msgIDMutex.ma) == 0, "no per-ID lock is retained")
+}
+
+// C13 view of the same history
+func zzC13_reply_cache() { zzC05_lifetime() }
+
 // a later request whose message ID equals an ID the endpoint used for its own outgoing reply is a fresh request
 func zzC05_ownid() {
 	s := zzNewSession()
